@@ -28,7 +28,12 @@ CONC = {
 OPTS = [dict(width=88), dict(width=30, semantic=True, cleanups=True, smartquotes=True, ellipses=True), dict(width=0, semantic=False, cleanups=False)]
 
 
+OVER = {}          # piece index -> text, set per job (spellings of the delimiter lines that the rotation cannot combine)
+
+
 def conc_piece(p, i, variant):
+    if i in OVER:
+        return OVER[i]
     opts = CONC[p["c"]]
     return opts[(i + variant) % len(opts)]
 
@@ -65,7 +70,9 @@ def body_starts_with_delim(doc, hi) -> bool:
 def _observe(job):
     from flowmark import reformat_text
     from flowmark.formats.frontmatter import split_frontmatter
-    idx, doc, ref, variant = job
+    idx, doc, ref, variant = job[:4]
+    OVER.clear()
+    OVER.update(job[4] if len(job) > 4 else {})
     x = concretise(doc, variant)
     fm_obs, content_obs = split_frontmatter(x)
     obs_kind = "none" if fm_obs == "" else ("unclosed" if content_obs == "" and fm_obs == x else "closed")
@@ -127,10 +134,17 @@ def run(tier: str) -> int:
             chk.discarded += 1          # format(body alone) would read the body's own '---' as frontmatter: equation undefined
             continue
         jobs.append((i, doc, ref, (i + chk.seed) % 7))
+        # a closed block followed by another delimiter-looking line in the body: every spelling of the closing line against bare
+        # (and padded) later lines -- the first closing line wins whatever its padding
+        later = [j for j in range(ref["hi"] + 1, len(doc) + 1) if doc[j - 1]["c"] == "delim"] if ref["kind"] == "closed" else []
+        if later:
+            for close in ("---", "--- ", " ---", "---\t"):
+                for lt in ("---", "--- "):
+                    jobs.append((i, doc, ref, (i + chk.seed) % 7, {ref["hi"]: close, **{j: lt for j in later}}))
     obs = pmap(_observe, jobs, chunksize=100)
     traces, metas = [], {}
     tid = 0
-    for (i, doc, ref, variant), o in zip(jobs, obs):
+    for (i, doc, ref, variant, *_over), o in zip(jobs, obs):
         for oi, r in enumerate(o["per_opts"]):
             chk.evaluations += 1
             if "exc" in r:
@@ -142,7 +156,7 @@ def run(tier: str) -> int:
             metas[tid] = dict(text=o["x"], opts=OPTS[oi], reference=ref, observed_split=o["obs_kind"], expected_block=o.get("exp_fm"),
                               body=o.get("body"), output=r["out"][:600])
             if ref["kind"] != "none":
-                chk.nontriv((i, oi))
+                chk.nontriv((i, oi, json.dumps(_over)))
     reports, gen, dist = tlc.validate_traces("FmTrace", traces, cfg=tlc.cfg_text(spec="TraceSpec", constants=dict(consts, DoDump=False),
                                                                                  invariants=["TraceReport"]), timeout=3000)
     chk.states += dist
